@@ -58,6 +58,11 @@ func c03Frames(rt *rapid.T) {
 	var frames []*frame.Frame
 	var lens []int
 	prefixParts, edited, refused := 0, 0, 0
+	// half of the streams are written the way a connection writes them: every frame encoded straight into ONE *bytes.Buffer
+	// that already holds the frames before it (which must stay as they are)
+	shared := rapid.Bool().Draw(rt, "sharedDestination")
+	var direct bytes.Buffer
+	noSentinel := rapid.IntRange(0, 2).Draw(rt, "noSentinel") == 0
 	for i := 0; i < n; i++ {
 		fc := gen.Frame(rt, v, comp != compNone, genOpts())
 		prefixParts += fc.Optional
@@ -65,7 +70,21 @@ func c03Frames(rt *rapid.T) {
 			if spy != nil {
 				spy.in, spy.out = nil, nil
 			}
-			enc, err := encodeFrame(codec, fc.Frame)
+			var enc []byte
+			var err error
+			if shared {
+				start := direct.Len()
+				err = codec.EncodeFrame(fc.Frame, &direct)
+				if err == nil {
+					if !bytes.Equal(direct.Bytes()[:start], stream.Bytes()) {
+						rt.Fatalf("EncodeFrame (%s) into a *bytes.Buffer that already held %d bytes of earlier frames changed those bytes", phase, start)
+					}
+					enc = append([]byte{}, direct.Bytes()[start:]...)
+				}
+				direct.Truncate(start)
+			} else {
+				enc, err = encodeFrame(codec, fc.Frame)
+			}
 			if err != nil {
 				rt.Fatalf("EncodeFrame (%s) failed on a version-valid frame: %v\n%s", phase, err, renderFrame(fc, comp))
 			}
@@ -117,6 +136,31 @@ func c03Frames(rt *rapid.T) {
 			}
 			if _, err := encodeFrame(codec, bad); err == nil {
 				rt.Fatalf("harness defect: a QUERY with an undeclared consistency level was encoded")
+			}
+			refused++
+		}
+		// ... or a frame that is refused only when its header is written (protocol v2 with a stream id beyond one byte), or
+		// whose destination fails after a few bytes - after the body has been staged and, with compression, compressed
+		switch rapid.IntRange(0, 7).Draw(rt, fmt.Sprintf("failedFirst%d", i)) {
+		case 0:
+			if v == primitive.ProtocolVersion2 {
+				bad := frame.NewFrame(v, 300, &message.Query{Query: "stream id out of range " + strings.Repeat("?", 48), Options: &message.QueryOptions{}})
+				if comp != compNone {
+					bad.SetCompress(true)
+				}
+				if _, err := encodeFrame(codec, bad); err == nil {
+					rt.Fatalf("harness defect: a v2 frame with stream id 300 was encoded")
+				}
+				refused++
+			}
+		case 1:
+			good := frame.NewFrame(v, 1, &message.Query{Query: "destination fails " + strings.Repeat("#", 80), Options: &message.QueryOptions{}})
+			if comp != compNone {
+				good.SetCompress(true)
+			}
+			fw := &failingWriter{left: rapid.SampledFrom([]int{0, 1, 3, 8, 9, 12, 40}).Draw(rt, fmt.Sprintf("failAfter%d", i))}
+			if err := codec.EncodeFrame(good, fw); err == nil {
+				rt.Fatalf("EncodeFrame reported success although its destination failed after %d bytes", fw.written)
 			}
 			refused++
 		}
@@ -190,11 +234,17 @@ func c03Frames(rt *rapid.T) {
 			edited++
 		}
 		stream.Write(enc)
+		direct.Write(enc)
 		frames = append(frames, fc.Frame)
 		lens = append(lens, len(enc))
 	}
-	// sentinel bytes after the last frame must stay unread
-	stream.Write([]byte{0xde, 0xad})
+	// sentinel bytes after the last frame must stay unread; one stream in three ends with its last frame (a decoder may
+	// treat "exactly one body left in the buffer" specially)
+	sentinel := []byte{0xde, 0xad}
+	if noSentinel {
+		sentinel = []byte{}
+	}
+	stream.Write(sentinel)
 	// the stream is presented through the reader types callers use - the decoders treat some of them specially
 	all := append([]byte{}, stream.Bytes()...)
 	srcKind := rapid.SampledFrom([]string{"counting", "shortReads", "bytes.Buffer", "bytes.Reader", "bufio.Reader"}).Draw(rt, "source")
@@ -237,13 +287,28 @@ func c03Frames(rt *rapid.T) {
 		}
 	}
 	rest, _ := io.ReadAll(cr)
-	if !bytes.Equal(rest, []byte{0xde, 0xad}) {
-		rt.Fatalf("after %d frames the stream has %d bytes left instead of the 2 sentinel bytes", n, len(rest))
+	if !bytes.Equal(rest, sentinel) {
+		rt.Fatalf("after %d frames the stream has %d bytes left instead of the %d sentinel bytes", n, len(rest), len(sentinel))
 	}
 	h := stats.Hash(stream.Bytes())
 	rec.Case(prefixParts > 0 || n >= 2, h, func() string {
 		return fmt.Sprintf("stream of %d frames v=%d comp=%s sizes=%v first=%s", n, v, comp, lens, canon.Render(frames[0]))
 	}, fmt.Sprintf("nframes:%d", n), fmt.Sprintf("version:%d", v), "comp:"+comp.String(), "source:"+srcKind, fmt.Sprintf("re-encoded-after-edit:%v", edited > 0), fmt.Sprintf("refused-encodes-in-between:%v", refused > 0))
+}
+
+// failingWriter accepts left bytes and then fails.
+type failingWriter struct{ left, written int }
+
+func (w *failingWriter) Write(p []byte) (int, error) {
+	if len(p) <= w.left {
+		w.left -= len(p)
+		w.written += len(p)
+		return len(p), nil
+	}
+	n := w.left
+	w.left = 0
+	w.written += n
+	return n, io.ErrClosedPipe
 }
 
 func TestC03Frames(t *testing.T) { rapid.Check(t, c03Frames) }
